@@ -67,6 +67,19 @@ Finish(n, appliedL1, appliedL2, newdead, isfault, kfnow) ==
           /\ IF Uncertain(n.out)
              THEN adm' = [adm EXCEPT ![cmd.k] = A \cup After1(A, r) \cup {None}] /\ UNCHANGED bad
              ELSE IF MissOK(r, res, f) THEN UNCHANGED <<adm, bad>>
+             \* after a fault the tiers may disagree about an unacknowledged write: a read that is explained
+             \* does not settle which of the admissible entries is "the" entry (same rule as OrcaTrace!Narrow)
+             \* nor does a refusal (not found, exists, not stored): C10 speaks of writes and deletes that were
+             \* ACKNOWLEDGED AS SUCCESSFUL - e.g. after a delete that failed half-way (gone from L2, still in L1) a
+             \* second delete answers "not found" and a read still hits L1; no successful acknowledgement was given
+             ELSE IF f /\ IsRead(r) /\ Explaining(A, r, res) # {} THEN UNCHANGED <<adm, bad>>
+             \* (a refused write may even have been applied to one tier - an add refused by a stale L1 after L2
+             \* took it: its value becomes admissible as well)
+             ELSE IF f /\ res = <<"fail">> /\ Explaining(A, r, res) # {}
+                  THEN adm' = [adm EXCEPT ![cmd.k] = A \cup After1(A, r)] /\ UNCHANGED bad
+             \* a touch or get-and-touch does not say which entry is the entry either: all of them get the new expiry
+             ELSE IF f /\ r.m \in {"touch", "gat"} /\ Explaining(A, r, res) # {}
+                  THEN adm' = [adm EXCEPT ![cmd.k] = After1(A, r)] /\ UNCHANGED bad
              ELSE IF Explaining(A, r, res) = {}
                   THEN /\ bad' = <<"Admissible", cmd, n.out, A>> /\ adm' = [adm EXCEPT ![cmd.k] = After1(A, r)]
                   ELSE /\ adm' = [adm EXCEPT ![cmd.k] = After1(Explaining(A, r, res), r)] /\ UNCHANGED bad
